@@ -229,13 +229,23 @@ func addSat(x, d int64) int64 {
 func genSizeRule(t *rapid.T, m int64, label string) string {
 	key := rapid.SampledFrom([]string{"to", "ge", "le", "oto", "gt", "lt", "eq", "noeq"}).Draw(t, label+"Key")
 	d := int64(rapid.IntRange(-2, 2).Draw(t, label+"D"))
+	// bounds are decimal numerals; now and then they are written with leading zeros (010 is ten)
+	num := func(x int64) string {
+		if rapid.IntRange(0, 11).Draw(t, label+"Pad") != 0 || x == math.MinInt64 {
+			return strconv.FormatInt(x, 10)
+		}
+		if x < 0 {
+			return "-0" + strconv.FormatInt(-x, 10)
+		}
+		return "0" + strconv.FormatInt(x, 10)
+	}
 	switch key {
 	case "to", "oto":
 		lo := addSat(m, d)
 		hi := addSat(lo, int64(rapid.IntRange(0, 3).Draw(t, label+"W")))
-		return fmt.Sprintf("%s=%d~%d", key, lo, hi)
+		return key + "=" + num(lo) + "~" + num(hi)
 	}
-	return fmt.Sprintf("%s=%d", key, addSat(m, d))
+	return key + "=" + num(addSat(m, d))
 }
 
 // genRuleItems draws a rule list for a scalar (or scalar-slice) field whose
